@@ -324,7 +324,7 @@ def replay_volume(inputs):
         seed, res = inputs['seed'], inputs['res']
         traj, sites, info = hopping_system(seed, n_frames=inputs.get('n_frames', 30), family=inputs.get('family'))
         exact_edges = False
-    lat = traj.get_lattice()
+    lat = __import__('pymatgen.core', fromlist=['Lattice']).Lattice(__import__('numpy').array(traj.lattice, dtype=float).reshape(3, 3))  # the raw cell, not the library's get_lattice()
     try:
         vol = traj.to_volume(resolution=res)
     except AssertionError as e:
